@@ -252,6 +252,19 @@ def P_C09(ctx, log, outcome_kind='ok', outcome_sim=None, maxloop=100, **kw):
     for l in log:
         if l[0] == 'BEGIN' and any(x >= maxloop for x in l[2][1:]):
             out.append(f'{l[1]} was stepped at {tuple(l[2])} although a sub-step index reached max_loop_iterations={maxloop}')
+    # "loops that settle within the bound are never interrupted": the guard may only fire for a simulator one of whose
+    # demanded (not yet executed) steps carries a sub-step index that reached the bound; the demanded tiered times are
+    # recomputed from the replies in the trace (demands_of), not taken from the scheduler
+    if outcome_kind == 'loop':
+        dem = demands_of(ctx, log)
+        begun = {(l[1], tuple(l[2])) for l in log if l[0] == 'BEGIN'}
+        over = [k for k in dem if k not in begun and any(x >= maxloop for x in k[1][1:])]
+        if not any(k[0] == outcome_sim for k in over):
+            if over:
+                out.append(f'run() was stopped by the loop guard naming {outcome_sim}, but the demanded steps that reach max_loop_iterations={maxloop} belong to {sorted({k[0] for k in over})}')
+            else:
+                out.append(f'run() was stopped by the loop guard naming {outcome_sim} although no demanded step has a sub-step index that reaches '
+                           f'max_loop_iterations={maxloop} (a loop that settled was interrupted)')
     return out
 
 
@@ -292,12 +305,13 @@ def P_C16(ctx, log, **kw):
     begins, done, _, _ = index_trace(ctx, log)
     for n, l in enumerate(log):
         if l[0] == 'SETDATA':
-            _, writer, dest, attr, tok = l
+            _, writer, dest, attr, tok = l[:5]
+            went = 'e' if len(l) < 6 or l[5] == 0 else f'a{l[5]}'
             if not any(e['asyn'] and e['a'] == dest and e['b'] == writer for e in ctx.edges):
                 if kw.get('outcome_kind') != 'async':
                     out.append(f'{writer} called set_data towards {dest} without an async_requests connection and was not refused (run ended with {kw.get("outcome_kind")})')
                 break
-            pending[dest][(attr, f'{writer}.e')] = tok
+            pending[dest][(attr, f'{writer}.{went}')] = tok
         elif l[0] == 'BEGIN':
             sid = l[1]
             got = {(a, k): v for a, m in l[4].get('e', {}).items() for k, v in m.items() if str(v).startswith('set')}
